@@ -199,6 +199,8 @@ class HState:
         self.conv: t.List[t.Set[str]] = [set(), set()]
         self.dead: t.List[t.Tuple[str, t.Tuple[str, ...]]] = []
         self.dropped_ids: t.Set[int] = set()
+        self.dead_ids: t.Dict[int, t.Tuple[str, t.Tuple[str, ...]]] = {}     # id of a dropped, memoised type -> what was memoised
+        self.alias: t.List[t.Any] = [None, None]                              # per slot: the dead memoised entry whose id this object reuses
         self.evicted = False
         self.problem: t.Optional[str] = None
 
@@ -211,6 +213,7 @@ class HState:
             if id(obj) in self.dropped_ids:
                 self.res['extra']['recycled_ids_observed'] = self.res['extra'].get('recycled_ids_observed', 0) + 1
             self.slots[s], self.kinds[s], self.conv[s] = obj, op[1], set()
+            self.alias[s] = self.dead_ids.get(id(obj))
         elif name == 'CONVERT':
             s, hf = op[1], op[2]
             got = outcome_vector(pane, self.slots[s], hf)
@@ -227,6 +230,9 @@ class HState:
             s = op[1]
             if self.conv[s]:
                 self.dead.append((self.kinds[s], tuple(sorted(self.conv[s]))))
+                if self.kinds[s] not in ('long_list', 'inner_dc', 'outer_dc'):
+                    self.dead_ids[id(self.slots[s])] = self.dead[-1]
+            self.alias[s] = None
             if self.kinds[s] not in ('long_list', 'inner_dc', 'outer_dc'):
                 self.dropped_ids.add(id(self.slots[s]))
             was_class = (self.kinds[s] or '').startswith('generic')
@@ -257,7 +263,9 @@ class HState:
         return ops
 
     def canon(self):
-        slots = tuple(sorted(((k or '', tuple(sorted(c))) for k, c in zip(self.kinds, self.conv))))
+        # 'alias' records an OBSERVED id reuse (this live type sits at the address of a dead memoised one): with it in the key,
+        # merged states have equal futures even for a memo that is keyed on addresses
+        slots = tuple(sorted(((k or '', tuple(sorted(c)), repr(a)) for k, c, a in zip(self.kinds, self.conv, self.alias))))
         return (slots, tuple(sorted(self.dead)), self.evicted)
 
 
